@@ -21,12 +21,14 @@ def make_pool(hszinc):
         {'id': 'y2'},                    # 6 another str id
         {'id': Ref('r1', 'Display'), 'v': 7},   # 7 Ref id with display name
         {'id': 'l1', 'v': [1.0, 'x']},          # 8 a 3.0-only cell: an unversioned grid upgrades itself to 3.0
+        {'id': 0, 'v': 9},                      # 9 falsy int id
+        {'id': '', 'v': 10},                    # 10 empty-string id
     ]
 
 
 def row_kind(i):
     return {0: 'str-id', 1: 'no-id', 2: 'int-id', 3: 'ref-id', 4: 'dup-id', 5: 'non-dict', 6: 'str-id',
-            7: 'refdis-id', 8: 'v3-cell'}[i]
+            7: 'refdis-id', 8: 'v3-cell', 9: 'zero-id', 10: 'empty-id'}[i]
 
 
 def new_grid(hszinc, version=None):
@@ -245,6 +247,7 @@ def key_universe(hszinc):
     Ref = hszinc.Ref
     return [('x1', "'x1'"), ('y2', "'y2'"), ('5', "'5'"), ('@r1', "'@r1'"), (Ref('r1'), "Ref('r1')"),
             ('never', "'never'"), ('z9', "'z9'"), ('r1', "'r1'"), ('@x1', "'@x1'"), ('idx', "'idx'"),
+            ('0', "'0'"), ('', "''"), ('l1', "'l1'"),
             (Ref('x1'), "Ref('x1')"), (str(Ref('r1', 'Display')), "str(Ref('r1','Display'))"),
             (Ref('r1', 'Display'), "Ref('r1','Display')")]
 
@@ -295,6 +298,8 @@ def observe_lookup(st, l, hszinc, counter=None):
 
 
 def id_kind(v):
+    if v == 0 or v == '':
+        return 'idkind=falsy'
     if isinstance(v, str):
         return 'idkind=str'
     if isinstance(v, int):
